@@ -793,6 +793,9 @@ impl<'a> Interp<'a> {
 fn strip_members(v: &mut Value) {
     match v {
         Value::Object(m) => {
+            if m.contains_key("clients") {
+                m.insert("clients".to_string(), json!([]));
+            }
             for k in ["members_count", "listed_members_count", "members_len"] {
                 if m.contains_key(k) {
                     m.insert(k.to_string(), json!(0));
